@@ -20,6 +20,7 @@ class Tables:
         self.qmap = {q["module"]: q for q in self.quantities}
         self.nbase = len(self.base)
         self.reading_stats = data.get("reading_stats", {})
+        self.custom = Tables(data["custom"]) if "custom" in data else None
 
     def unit(self, module, name):
         for u in self.qmap[module]["units"]:
@@ -48,12 +49,21 @@ def translate(repo=None):
     v = uom2coq.emit(tables)
     import json
     data = uom2coq.tables_json(tables)
-    j = json.dumps(data, ensure_ascii=False, indent=0, sort_keys=True)
     import readings
     rv, rstats, _survey = readings.emit_readings(tables)
     ch1 = C.write_if_changed(os.path.join(C.GEN, "SiTables.v"), v)
     ch1 = C.write_if_changed(os.path.join(C.GEN, "SiReadings.v"), rv) or ch1
     data["reading_stats"] = rstats
+    # the downstream system of the harness (C19): same translator, same generated structure, prefix cs_
+    cpath = os.path.join(C.VERIF, "harness", "csys.rs")
+    ctab = uom2coq.translate_file(cpath, repo)
+    crv, crstats, _ = readings.emit_readings(ctab, prefix="cs")
+    ch1 = C.write_if_changed(os.path.join(C.GEN, "CustomTables.v"), uom2coq.emit(ctab, "cs")) or ch1
+    ch1 = C.write_if_changed(os.path.join(C.GEN, "CustomReadings.v"), crv) or ch1
+    cdata = uom2coq.tables_json(ctab)
+    cdata["reading_stats"] = crstats
+    data["custom"] = cdata
+    j = json.dumps(data, ensure_ascii=False, indent=0, sort_keys=True)
     C.write_if_changed(os.path.join(C.GEN, "si_tables.json"), j)
     return Tables(json.loads(j)), ch1
 
@@ -107,5 +117,9 @@ BASE_SETS = {
     "kgh": ("kilometer", "gram", "hour", "milliampere", "millikelvin", "kilomole", "candela"),
     "fpm": ("foot", "pound", "minute", "ampere", "kelvin", "mole", "candela"),
     "mtm": ("millimeter", "ton", "millisecond", "kiloampere", "kilokelvin", "millimole", "candela"),
+    # base-unit tuples of the harness' own 4-base system (harness/csys.rs)
+    "cdef": ("pace", "stone", "beat", "degree_a"),
+    "calt": ("league", "feather", "blink", "millidegree_a"),
+    "cbig": ("gigapace", "mountain", "age", "degree_a"),
     "tiny": ("yoctometer", "yoctogram", "yoctosecond", "yoctoampere", "yoctokelvin", "yoctomole", "yoctocandela"),
 }
